@@ -259,7 +259,8 @@ def gen_case(rng):
                     entry["props"][attr] = {
                         "el": wg.element(2),
                         "required": rng.random() < 0.5,
-                        "source": inherited[attr].get("source"),
+                        # re-declared with the same explicit source, or without one
+                        "source": inherited[attr].get("source") if rng.random() < 0.5 else None,
                     }
             if base and rng.random() < 0.3:
                 # child adds a required property (the known hot spot with an
